@@ -938,7 +938,7 @@ impl<'a> GeneratorState<'a> {
             }
             Expr::Neg(v) => self.generate_neg(v, pos, high_byte),
             Expr::Not(v) => self.generate_not(v, pos),
-            Expr::BNot(v) => self.generate_bnot(v, pos),
+            Expr::BNot(v) => self.generate_bnot(v, pos, high_byte),
             Expr::Deref(v) => self.generate_deref(v, pos),
             Expr::Addr(v) => self.generate_addr(v, pos),
             Expr::Sizeof(v) => self.generate_sizeof(v, pos),
